@@ -2277,7 +2277,9 @@ func (h *header) tryReadTrailer(r *bufio.Reader, n int) error {
 	h.h = hh
 	if errParse != nil {
 		if err == io.EOF {
-			return err
+			// The peer closed the connection in the middle of the trailer:
+			// io.EOF is reserved for "closed before reading the first byte".
+			return io.ErrUnexpectedEOF
 		}
 		return headerError("response", err, errParse, b, h.secureErrorLogMessage)
 	}
